@@ -1,19 +1,58 @@
 (* C10 — Unmarshal is total: a result or a classified error, never a panic.
    Statements only; proofs in Proofs/C10Proofs.v. *)
 From Errdef Require Import Base.Str Base.Outcome Model.Core Model.Convert Model.Unmarshal Check.UM Check.C10 Proofs.C10Proofs
-  Model.UnmarshalGen Proofs.UnmarshalGenProofs.
+  Model.UnmarshalGen Proofs.UnmarshalGenProofs Model.GoLite Model.UnmarshalGL Proofs.UnmarshalSrc.
 
-(* ---- the transcription still describes the source ------------------------------------- *)
-(* Model/Unmarshal.v transcribes Unmarshaler.Unmarshal / unmarshal / unmarshalCause statement group by statement
-   group.  On every run srcgen alpha-renames the three bodies (receiver r, parameters and locals v0, v1, ...) and
-   checks that every group the model was written from is there - nil input, kind resolved first, fields visited in
-   name order, the redaction placeholder kept as an unknown placeholder and nothing else, definition keys then
-   custom keys of the field's name with "a conversion error aborts, the first accepting key binds", strict mode's
-   ErrUnknownField, lenient mode keeping the decoded value, causes in order; for a cause: errdef first, only
-   ErrInternal propagates, the two placeholder fallbacks, nested causes in order, a registered definition named by
-   the message then a registered sentinel when there are no nested causes, else an UnknownCauseError - in this
-   order and with nothing else between them (Gen/UnmarshalSrc.v lists them one by one); likewise the five steps
-   of tryConvertFieldValue and the JSON route of tryConvertViaJSON (which target kinds go through JSON). *)
+(* ---- the model IS the source ---------------------------------------------------------------------------- *)
+(* On every run srcgen (golite.go) translates the bodies of Unmarshaler.Unmarshal / unmarshal / unmarshalCause /
+   resolveKind / resolveDefinitionFromMessage from unmarshaler/unmarshaler.go, statement by statement, into the
+   deep-embedded Go fragment of Model/GoLite.v (Gen/GoLiteSrc.v): block scoping resolved to distinct variables,
+   selectors / methods / conversions / literals as named primitives.  Nothing in that translation knows what the
+   functions are for. *)
+
+(* the translation was complete: no construct outside the fragment, no map or slice that is written while a second
+   name can reach it (the condition under which the interpreter's value semantics of maps and slices is Go's),
+   and every primitive the bodies call has a meaning in Model/UnmarshalGL.um_ext *)
+Theorem C10_source_translated : um_translation_ok = true.
+Proof. vm_compute. reflexivity. Qed.
+Print Assumptions C10_source_translated.
+
+(* THE TIE: for every configuration, every input - a decoder error, a nil DecodedData, any decoded tree of any depth
+   and width with nil entries anywhere in Causes, field names distinct at each node as in a Go map - and every fuel
+   that covers the tree's depth, running the TRANSLATED Unmarshal with the GoLite interpreter returns exactly what the
+   hand-written model Model/Unmarshal.v returns.  So every theorem about unmarshal_top / unmarshal / unmarshal_cause
+   (here, and in C09, C12, C13, C20) is a theorem about the code as srcgen read it in this run. *)
+Theorem C10_source_is_model : forall c od decerr,
+  match od with Some d => dd_nodup d | None => True end ->
+  forall n, (2 * match od with Some d => dd_depth d | None => O end + 1 <= n)%nat ->
+  um_run (S n) ".Unmarshal" [VD (DU c); input_val od decerr] = enc_rerr (top_model c od decerr).
+Proof. exact um_top_source_is_model. Qed.
+Print Assumptions C10_source_is_model.
+
+(* the same for the two recursive workers, on every node *)
+Theorem C10_source_workers_are_model : forall c d, dd_nodup d -> forall n, (2 * dd_depth d <= n)%nat ->
+  um_run (S n) ".unmarshal" [VD (DU c); VD (DNode d)] = enc_rerr (unmarshal c d) /\
+  um_run (S (S n)) ".unmarshalCause" [VD (DU c); VD (DNode d)] = enc_cause (unmarshal_cause c d).
+Proof. exact um_source_is_model. Qed.
+Print Assumptions C10_source_workers_are_model.
+
+(* totality, stated about the translated source itself: it never panics, never leaves the fragment, never runs out
+   of fuel - it returns a restored error, or exactly one failure classified under one of the four definitions *)
+Theorem C10_source_total : forall c od decerr,
+  match od with Some d => dd_nodup d | None => True end ->
+  exists r, src_unmarshal_top (fuel_for od) c od decerr = Some r /\
+    match r with
+    | UOk _ => True
+    | UFail fs => exists f, fs = [f] /\ (fl_class f = cls_decode \/ fl_class f = cls_kind \/ fl_class f = cls_field \/ fl_class f = cls_internal)
+    | UPanic _ => False
+    end.
+Proof. exact source_total. Qed.
+Print Assumptions C10_source_total.
+
+(* ---- the binding rules (converter.go) are still pinned by statement groups ------------------------------------ *)
+(* Model/Convert.v transcribes the five steps of tryConvertFieldValue and the JSON route of tryConvertViaJSON (which
+   target kinds go through JSON); srcgen alpha-renames the two bodies and checks that every group the model was
+   written from is there, in this order and with nothing else between them (Gen/UnmarshalSrc.v lists them). *)
 Theorem C10_unmarshal_source_shape_recognised : unmarshal_source_ok = true.
 Proof. exact unmarshal_source_shape. Qed.
 Print Assumptions C10_unmarshal_source_shape_recognised.
